@@ -509,3 +509,18 @@ def case_split(v, limit: int = 3):
             return None
         out.append((tuple(c if b else _a.mk_not(c) for c, b in assign.items()), _a.renorm_deep(val)))
     return out
+
+
+def expand_isinstance(v):
+    """isinstance(x, (A, B)) -> isinstance(x, A) or isinstance(x, B), everywhere in v (a projection for rules that compare
+    type tests; the evaluator keeps the tuple form because other rules read it)."""
+    if not isinstance(v, tuple) or not v:
+        return v
+    new = tuple(expand_isinstance(x) if isinstance(x, tuple) else x for x in v)
+    if new[0] == "call" and new[1] == "isinstance" and len(new[2]) == 2 and new[2][1][0] == "list" and len(new[2][1][1]) >= 2 and not any(i_[0] in ("spread", "when") for i_ in new[2][1][1]):
+        out = None
+        for k_ in new[2][1][1]:
+            one = ("call", "isinstance", (new[2][0], k_), ())
+            out = one if out is None else _av.mk_or(out, one)
+        return out
+    return _av.renorm(new) if new != v and isinstance(new[0], str) else new
